@@ -37,13 +37,13 @@ def run(tier, seed, replay=None):
         cases = vf.load_corpus(PROP)
         n = 40 if tier == "quick" else 400
         for i in range(n):
-            cases.append(tickgen.gen_case(r.rng, local=0.9, extra="maxassign=243 reps=1 threads=1,2,4,8,32"))
+            cases.append(tickgen.gen_case(r.rng, local=0.9, safe=True, extra="maxassign=243 reps=1 threads=1,2,4,8,32"))
         for i in range(8 if tier == "quick" else 100):
             cases.append(tickgen.gen_case(r.rng, local=0.5, extra="maxassign=81 reps=2 threads=1,3,16"))
         for _ in range(1 if tier == "quick" else 4):
             cases.append(tickgen.gen_case(r.rng, big=True, extra="maxassign=6 reps=1 threads=2,7"))
         if tier == "thorough":
-            cases += [tickgen.gen_case(r.rng, local=0.9, extra="maxassign=729 reps=20 threads=" + ",".join(str(w) for w in range(1, 33)))
+            cases += [tickgen.gen_case(r.rng, local=0.9, safe=True, extra="maxassign=729 reps=20 threads=" + ",".join(str(w) for w in range(1, 33)))
                       for _ in range(20)]
     try:
         bins = vf.cargo_build(["c02"])
@@ -71,7 +71,7 @@ def run(tier, seed, replay=None):
     for i, a, m in bad[:3]:
         r.is_broken("correspondence", f"work units differ on: {cases[i][:1200]}\n impl : {a}\n model: {m}")
     if r.broken and not r.violations and not replay:
-        extra = [tickgen.gen_case(r.rng, local=0.8, extra="maxassign=243 reps=3 threads=1,2,3,5,8,13,32") for _ in range(300)]
+        extra = [tickgen.gen_case(r.rng, local=0.8, safe=True, extra="maxassign=243 reps=3 threads=1,2,3,5,8,13,32") for _ in range(300)]
         for c, l in zip(extra, run_impl(bins, "c02search", extra)):
             o = tickgen.fields(l)["oracle"]
             if o != "ok":
